@@ -106,6 +106,11 @@ func (f *Func) Type() types.Type {
 		f.Typ = types.NewPointer(f.Sig)
 		f.Typ.AddrSpace = f.AddrSpace
 	}
+	// The address space may have been set after the type was cached.
+	if f.Typ.AddrSpace != f.AddrSpace {
+		f.Typ = types.NewPointer(f.Sig)
+		f.Typ.AddrSpace = f.AddrSpace
+	}
 	return f.Typ
 }
 
